@@ -160,6 +160,11 @@ class Evaluator:
             nm = self.prog.callee_name(f, n)
             if nm in self.calls:
                 args = []
+                if k == "CXXMemberCallExpr" and n.get("obj") is not None and getattr(self, "pass_object", False):
+                    try:
+                        args.append(self.ev(f.node(n["obj"])))
+                    except Unknown:
+                        args.append(None)
                 for a in f.args(n):
                     try:
                         args.append(self.ev(a))
@@ -243,6 +248,10 @@ class Evaluator:
                 except Unknown as u:
                     vals[e] = u
             succ = [s for s in blk["succ"]]
+            if blk.get("tempdtorbranch") and len(succ) == 2:
+                # both successors differ only in a temporary's destructor, which is not modelled
+                b = succ[1] if succ[1] is not None else succ[0]
+                continue
             if blk.get("cond") is not None and len(succ) == 2:
                 c = blk["cond"]
                 v = vals.get(c)
